@@ -82,6 +82,7 @@ def modelOp (s : DState) (line : String) : DState × List String :=
   | "C" :: rest => ({ s with cfg := parseCfg s.cfg rest }, ["@@R ok"])
   | ["E", d, secs] => ({ s with env := { httpDate := (unhex d).getD [], unixSecs := secs.toNat?.getD 0 } }, [])
   | ["X"] => ({ s with st := [] }, ["@@R ok"])
+  | ["Z", _] => (s, ["@@R ok"])      -- time passes: the model has no clock (wall-clock inputs are the explicit `Env`)
   | ["F", h] =>
     match unhex h with
     | none => (s, ["@@R bad-op"])
